@@ -659,16 +659,14 @@ func isStdlib(pkg *ssa.Package) bool {
 	return !strings.Contains(first, ".")
 }
 
+// Package-level variables are allocated and initialised once per machine (the package
+// initialiser is interpreted tolerantly on first touch); for non-stdlib packages the values
+// the globals had right after initialisation are restored at the start of every path.
 func (m *Machine) globalAddr(g *ssa.Global) *Value {
-	shared := isStdlib(g.Pkg)
-	tab := m.globals
-	if shared {
-		tab = m.sharedGlob
-	}
+	tab := m.sharedGlob
 	if a, ok := tab[g]; ok {
 		return a
 	}
-	// allocate all globals of the package, then run its initialiser tolerantly
 	pkg := g.Pkg
 	for _, mem := range pkg.Members {
 		if gg, ok := mem.(*ssa.Global); ok {
@@ -679,15 +677,24 @@ func (m *Machine) globalAddr(g *ssa.Global) *Value {
 			}
 		}
 	}
-	inited := m.inited
-	if shared {
-		inited = m.sharedInit
-	}
-	if !inited[pkg] {
-		inited[pkg] = true
+	if !m.sharedInit[pkg] {
+		m.sharedInit[pkg] = true
 		m.runInit(pkg)
+		if !isStdlib(pkg) {
+			for _, mem := range pkg.Members {
+				if gg, ok := mem.(*ssa.Global); ok {
+					m.snap[gg] = copyVal(*tab[gg])
+				}
+			}
+		}
 	}
 	return tab[g]
+}
+
+func (m *Machine) restoreGlobals() {
+	for g, v := range m.snap {
+		*m.sharedGlob[g] = copyVal(v)
+	}
 }
 
 func (m *Machine) runInit(pkg *ssa.Package) {
